@@ -140,6 +140,8 @@ ACC_FOLD(s_prod_u64, uint64_t, aws_mul_u64_checked, 1)
 ACC_FOLD(s_sum_u64, uint64_t, aws_add_u64_checked, 0)
 ACC_FOLD(s_prod_size, size_t, aws_mul_size_checked, 1)
 ACC_FOLD(s_sum_size, size_t, aws_add_size_checked, 0)
+ACC_FOLD(s_diff_u64, uint64_t, aws_sub_u64_checked, UINT64_MAX)
+ACC_FOLD(s_diff_size, size_t, aws_sub_size_checked, SIZE_MAX)
 static __attribute__((noinline)) int s_prod_field(struct c16_accbox *box, const uint64_t *f, int n) {
     box->value = 1;
     box->count = 0;
@@ -158,9 +160,19 @@ static __attribute__((noinline)) int s_sum_field(struct c16_accbox *box, const u
     }
     return 0;
 }
-static int s_acc_u64(uint64_t *acc, const uint64_t *f, int n, int op) { return op ? s_prod_u64(f, n, acc) : s_sum_u64(f, n, acc); }
-static int s_acc_size(size_t *acc, const size_t *f, int n, int op) { return op ? s_prod_size(f, n, acc) : s_sum_size(f, n, acc); }
-static int s_acc_field(struct c16_accbox *box, const uint64_t *f, int n, int op) { return op ? s_prod_field(box, f, n) : s_sum_field(box, f, n); }
+static __attribute__((noinline)) int s_diff_field(struct c16_accbox *box, const uint64_t *f, int n) {
+    box->value = UINT64_MAX;
+    box->count = 0;
+    for (int i = 0; i < n; ++i) {
+        if (aws_sub_u64_checked(box->value, f[i], &box->value)) return i + 1;
+        box->count++;
+    }
+    return 0;
+}
+/* op: 0 = sum from 0, 1 = product from 1, 2 = difference from the type's maximum */
+static int s_acc_u64(uint64_t *acc, const uint64_t *f, int n, int op) { return op == 2 ? s_diff_u64(f, n, acc) : op ? s_prod_u64(f, n, acc) : s_sum_u64(f, n, acc); }
+static int s_acc_size(size_t *acc, const size_t *f, int n, int op) { return op == 2 ? s_diff_size(f, n, acc) : op ? s_prod_size(f, n, acc) : s_sum_size(f, n, acc); }
+static int s_acc_field(struct c16_accbox *box, const uint64_t *f, int n, int op) { return op == 2 ? s_diff_field(box, f, n) : op ? s_prod_field(box, f, n) : s_sum_field(box, f, n); }
 
 const struct c16_table C16_SYM = {
 #if C16_IMPL == 1
